@@ -405,7 +405,11 @@ func (P *Program) lemmaObligations(prop string) []*Obligation {
 		text := string(data)
 		var props []string
 		what := ""
+		var exclude []string
 		for _, l := range strings.Split(text, "\n") {
+			if strings.HasPrefix(l, "; exclude-sections:") {
+				exclude = strings.Fields(l[len("; exclude-sections:"):])
+			}
 			if strings.HasPrefix(l, "; props:") {
 				props = strings.Fields(strings.ReplaceAll(l[len("; props:"):], ",", " "))
 			}
@@ -425,7 +429,7 @@ func (P *Program) lemmaObligations(prop string) []*Obligation {
 			name := strings.TrimSpace(g[:nl])
 			body := g[nl+1:]
 			mustFail := strings.HasPrefix(name, "CANARY")
-			q := baseHeader + P.prelude(header+body, P.sorts) + header + body + "(check-sat)\n(get-model)\n"
+			q := baseHeader + P.preludeEx(header+body, P.sorts, exclude) + header + body + "(check-sat)\n(get-model)\n"
 			out = append(out, &Obligation{Label: name, Kind: "lemma", Fn: "lemma:" + filepath.Base(f), Goal: q, Src: what, MustFail: mustFail})
 		}
 	}
